@@ -108,7 +108,22 @@ STEPS = [None, 1, 2, 3, 7, 8, -1, -2, -3, -8]
 
 @st.composite
 def slice_st(draw, n, steps=STEPS):
-    return [draw(opt_index_st(n)), draw(opt_index_st(n)), draw(st.sampled_from(steps))]
+    step = draw(st.sampled_from(steps))
+    if draw(st.booleans()) or n == 0:
+        return [draw(opt_index_st(n)), draw(opt_index_st(n)), step]
+    # a slice that selects something: ordered ends in the direction of the step, either end possibly negative/omitted
+    a = draw(st.integers(0, n - 1))
+    b = draw(st.integers(a + 1, n))
+    lo, hi = a, b
+    if step is not None and step < 0:
+        lo, hi = b - 1, a - 1  # start high, stop low (stop -1 must be spelled None or -n-1)
+        if hi < 0:
+            hi = None if draw(st.booleans()) else -n - 1
+    def neg(x):
+        if x is None or x < 0:
+            return x
+        return x - n if draw(st.integers(0, 3)) == 0 and x - n < 0 else x
+    return [neg(lo), neg(hi), step]
 
 
 @st.composite
